@@ -607,7 +607,7 @@ func applyM(r *rng.R, s *mnode, i int, class string) bool {
 			return false
 		}
 		insert(n, s.kids[i].clone())
-	case "dup-alt": // the copy disagrees with the original: which one does the decoder keep, which does the encoder write?
+	case "dup-alt", "dup-alt-before": // the copy disagrees with the original: which one does the decoder keep, which does the encoder write?
 		if i >= n {
 			return false
 		}
@@ -617,7 +617,7 @@ func applyM(r *rng.R, s *mnode, i int, class string) bool {
 		if len(lv) == 0 || !altM(r, rng.Pick(r, lv).n) {
 			return false
 		}
-		if r.Chance(1, 4) {
+		if class == "dup-alt-before" {
 			insert(i, c)
 		} else {
 			insert(i+1, c)
@@ -696,7 +696,7 @@ func mutateM(r *rng.R, root *mnode, class string) int {
 	case "dup":
 		return site(1, rng.Pick(r, []string{"dup", "dup-end"}), func(n int) int { return r.Intn(n) })
 	case "dup-alt":
-		return site(1, "dup-alt", func(n int) int { return r.Intn(n) })
+		return site(1, rng.Pick(r, []string{"dup-alt", "dup-alt", "dup-alt", "dup-alt-before"}), func(n int) int { return r.Intn(n) })
 	case "unk-front":
 		return site(0, "unk", func(n int) int { return 0 })
 	case "unk-mid":
@@ -707,6 +707,29 @@ func mutateM(r *rng.R, root *mnode, class string) int {
 		return site(1, "del", func(n int) int { return r.Intn(n) })
 	case "zero":
 		return site(1, "zero", func(n int) int { return r.Intn(n) })
+	case "memberless":
+		// a Credential without its CredentialValue, a plain KeyValue without its KeyMaterial: accepted (the member
+		// is a pointer skipped on tag mismatch) and decoded to a union none of whose members is set — a value no
+		// conforming message has (the typed Lean theorem excludes it: checked here only)
+		var c []mloc
+		for _, st := range sts {
+			for _, k := range st.n.kids {
+				if (st.n.tag == kmip.TagCredential && k.tag == kmip.TagCredentialValue) || (st.n.tag == kmip.TagKeyValue && k.tag == kmip.TagKeyMaterial) {
+					c = append(c, st)
+				}
+			}
+		}
+		if len(c) == 0 {
+			return -1
+		}
+		st := rng.Pick(r, c)
+		for i, k := range st.n.kids {
+			if k.tag == kmip.TagCredentialValue || k.tag == kmip.TagKeyMaterial {
+				st.n.kids = append(st.n.kids[:i:i], st.n.kids[i+1:]...)
+				break
+			}
+		}
+		return st.depth
 	case "text":
 		var lv []mloc
 		root.leaves(0, func(n *mnode) bool { return n.typ == 7 }, &lv)
@@ -785,7 +808,7 @@ func mutateM(r *rng.R, root *mnode, class string) int {
 	return -1
 }
 
-var fixBinClasses = []string{"swap", "move", "dup", "dup-alt", "unk-front", "unk-mid", "unk-end", "del", "zero", "text", "bigpad", "pad", "boolgarb", "ver-down", "ver-up"}
+var fixBinClasses = []string{"swap", "move", "dup", "dup-alt", "unk-front", "unk-mid", "unk-end", "del", "zero", "memberless", "text", "bigpad", "pad", "boolgarb", "ver-down", "ver-up"}
 
 // fixBinMutants: `per` random single mutations of each class, compositions, and — for one structure of the
 // message (the root for standalone types) — EVERY single structural mutation at every child position.
@@ -839,7 +862,7 @@ func fixBinMutants(ctx *Ctx, s *schema.Schema, tg planTarget, r *rng.R, b []byte
 	}
 	n := len(sts[which].n.kids)
 	depth := sts[which].depth
-	for _, cls := range []string{"swap", "move", "move-front", "dup", "dup-end", "dup-alt", "del", "zero", "unk"} {
+	for _, cls := range []string{"swap", "move", "move-front", "dup", "dup-end", "dup-alt", "dup-alt-before", "del", "zero", "unk"} {
 		for i := 0; i <= n; i++ {
 			m := root.clone()
 			var ms []mloc
@@ -855,6 +878,8 @@ func fixBinMutants(ctx *Ctx, s *schema.Schema, tg planTarget, r *rng.R, b []byte
 				name = "move"
 			case "dup-end":
 				name = "dup"
+			case "dup-alt-before":
+				name = "dup-alt"
 			}
 			fixCase(ctx, s, tg, 0, name, depth, m.enc())
 		}
@@ -1065,7 +1090,7 @@ func fixSeed(ctx *Ctx, s *schema.Schema, tg planTarget, r *rng.R, x any, per int
 // to reach the floor (a generator that stops producing a class is a broken check).
 var fixFloorTable = map[string]int{
 	"ttlv.swap": 60, "ttlv.move": 80, "ttlv.dup": 200, "ttlv.dup-alt": 120, "ttlv.unk-front": 40, "ttlv.unk-mid": 80, "ttlv.unk-end": 150,
-	"acc:ttlv.del": 120, "ttlv.zero": 50, "acc:ttlv.text": 120, "ttlv.bigpad": 20, "ttlv.pad": 100, "ttlv.boolgarb": 20, "ttlv.ver-down": 40, "acc:ttlv.ver-up": 100, "ttlv.combo": 40,
+	"acc:ttlv.del": 120, "acc:ttlv.memberless": 25, "ttlv.zero": 50, "acc:ttlv.text": 120, "ttlv.bigpad": 20, "ttlv.pad": 100, "ttlv.boolgarb": 20, "ttlv.ver-down": 40, "acc:ttlv.ver-up": 100, "ttlv.combo": 40,
 	"ttlv.unk@depth0": 80, "ttlv.unk@depth1": 25, "ttlv.unk@depth2": 60, "ttlv.unk@depth3": 60,
 	"xml.swap": 35, "xml.move": 30, "xml.dup": 80, "xml.dup-alt": 70, "acc:xml.text": 120, "xml.date-edge": 20, "xml.unk-front": 40, "xml.unk-mid": 50, "xml.unk-end": 120,
 	"acc:xml.del": 60, "xml.zero": 35, "xml.lex": 120, "xml.lex-big": 12, "xml.lex-date": 70, "xml.lex-mask": 5, "xml.attr": 120, "xml.ver-down": 40, "acc:xml.ver-up": 100, "xml.combo": 40,
